@@ -135,4 +135,11 @@ CHECKS['C17'] = dict(
     note=ASSUME + '; dates of the common era (year() >= 1); all formula atoms are integers; atoms of a normal form are independent',
     technique='abstract interpretation of the conversion + reference-formula comparison on polynomial normal forms, loop guard/step rules, '
               'finite truth tables, panic-site inventory')
-NA['C20'] = 'metamorphic relation between numeric outputs through the whole ephemeris; the only structural fact behind it is not a necessary condition'
+CHECKS['C20'] = dict(
+    text='Sign / scale structure of the two dependencies only (necessary conditions): the Julian Day is linear in the GMT offset with '
+         'coefficient exactly -1/24 (+1 in the day of month) in every branch of the constructor; the GMT offset is converted to a number only '
+         'inside that constructor among all functions reachable from prayer_times_dt; every linear form that combines the longitude with the '
+         'sidereal time and the right ascension (transit fraction, hour angles, topocentric hour angle) is k*(sidereal + longitude - RA). '
+         'The 10-second agreement, the validity clause and the ephemeris itself are numeric relations between outputs: not decided.',
+    note=ASSUME + '; east longitudes positive; sidereal-time / right-ascension fields recognised from the per-day constructor (360.98564736629 deg/day; atan2)',
+    technique='polynomial normal forms (coefficient extraction) on reconstructed terms + who-may-call query on the call graph')
